@@ -28,6 +28,11 @@ func String(v any) string {
 	return string(b)
 }
 
+// Enums maps the name of an integer type to the names of its constants: values of such a type are rendered by
+// constant name, so that a reference tree does not depend on the numbering (package astnames registers the
+// enumerations of pkg/sql/ast).
+var Enums = map[string]map[int64]string{}
+
 const maxDepth = 4000
 
 func dump(v reflect.Value, depth int) any {
@@ -89,6 +94,11 @@ func dump(v reflect.Value, depth int) any {
 	case reflect.Bool:
 		return v.Bool()
 	case reflect.Int, reflect.Int8, reflect.Int16, reflect.Int32, reflect.Int64:
+		if names, ok := Enums[v.Type().Name()]; ok {
+			if n, ok := names[v.Int()]; ok {
+				return n
+			}
+		}
 		return v.Int()
 	case reflect.Uint, reflect.Uint8, reflect.Uint16, reflect.Uint32, reflect.Uint64:
 		return v.Uint()
